@@ -819,6 +819,16 @@ def compose(res, r, good_routes, good_rules, n):
         if got != {'ok': {'afi_safi': [1, 133], 'withdraw': [sorted(ra), sorted(rb)]}}:
             res.fail('C15', 'flowspec rules: decode(a||b) != decode(a)+decode(b)',
                      {'kind': 'compose_fs_rules', 'a': a.hex(), 'b': b.hex(), 'decoded': got}, key='compose-flowspec-rules')
+        # the same through MP_REACH_NLRI (next hop absent), with a long rule (2-octet length) in front more often
+        if r.random() < 0.5:
+            longs = [x for x in good_rules if len(x[1]) >= 242]
+            if longs:
+                ra, a = r.choice(longs)
+        got = I.mpreach_parse(b'\x00\x01\x85\x00\x00' + a + b)
+        res.stats.hit('compose_flowspec_rules_reach' + ('_long' if len(a) >= 242 else ''))
+        if got != {'ok': {'afi_safi': [1, 133], 'nexthop': '', 'nlri': [sorted(ra), sorted(rb)]}}:
+            res.fail('C15', 'flowspec rules (MP_REACH): decode(a||b) != decode(a)+decode(b)',
+                     {'kind': 'compose_fs_rules_reach', 'a': a.hex(), 'b': b.hex(), 'decoded': got}, key='compose-flowspec-rules')
         # component lists: the bodies without their length field, keys of b override / extend those of a
         ba = a[2:] if len(a) >= 242 else a[1:]
         bb = b[2:] if len(b) >= 242 else b[1:]
